@@ -357,7 +357,7 @@ Proof.
   - destruct (compile_heap fl (hp w) (if is_circ then fld (hp w) a 0 else a)) as [h1|] eqn:Eo; try discriminate.
     destruct (comp_run fl (nth k (comps w) dcomp) args dphi) as [[k' eff] gp].
     inversion E; subst. simpl.
-    eapply inv_extends; [eapply compile_heap_inv; eauto|]. eexists; reflexivity.
+    eapply inv_extends; [eapply (compile_heap_inv fl n h0 (hp w)); [exact Hic|exact Hi|exact Eo]|]. eexists; reflexivity.
   - (* CLoad *)
     destruct (match chain with Some ms => op_chain fl ms (hp w) qc | None => Some (hp w, qc) end) as [[h1 qc1]|] eqn:E1; try discriminate.
     destruct (op_resolve fl h1 qc1) as [[h2 qc2]|] eqn:E2; try discriminate.
@@ -369,7 +369,7 @@ Proof.
       unfold op_chain in E1. rewrite Hci in E1. eapply op_pass_extends; exact E1. }
     assert (X2 : extends h1 h2) by (eapply op_pass_extends; exact E2).
     eapply inv_extends; [|eexists; reflexivity].
-    eapply compile_heap_inv; eauto.
+    eapply (compile_heap_inv fl n h0 h2); [exact Hic| |exact E3].
     eapply inv_extends; [|exact X2]. eapply inv_extends; eauto.
   - destruct noisy.
     + destruct (noisy_query fl true (nth p (procs w) dproc)). inversion E; subst. exact Hi.
